@@ -234,6 +234,10 @@ class _MetaAgent(type):
         """Wrapper for the ``_MetaAgent.get_class_component()`` function."""
         return self.get_class_component(item)
 
+    # ``cls[ComponentType]`` is a lookup, not a sequence. Without this, ``iter(cls)`` falls back on the legacy protocol
+    # (``cls[0]``, ``cls[1]``, ...), which never ends because unknown keys answer ``None``
+    __iter__ = None
+
     def __len__(self) -> int:
         """Returns the number of class components attached to a given Agent."""
         return len(self._components)
@@ -362,6 +366,9 @@ class Agent(object, metaclass=_MetaAgent):
     def __getitem__(self, item: type):
         """Wrapper for the ``Agent.get_component()`` function."""
         return self.get_component(item)
+
+    # ``agent[ComponentType]`` is a lookup, not a sequence (see ``_MetaAgent.__iter__``); ``Environment`` defines its own
+    __iter__ = None
 
     def __len__(self) -> int:
         """Returns the number of components attached to a given agent."""
